@@ -1026,6 +1026,7 @@ pub fn corr(run: &mut Run) {
         }
     }
     // ---- D: two joins of the same two tables in ONE graph, on different key columns of the first table
+    run.rule.push_str(" D: two joins of the same tables on different key columns in one graph, compiled vs plaintext. H: 8x9-row Union / Full / Left joins compiled once and evaluated under 40 (quick) / 300 (thorough) seeds.");
     two_joins(run);
     // ---- H: one compiled Union / Full join under MANY evaluation seeds (the cuckoo hash functions are drawn
     // per evaluation: with some seeds two rows collide under the first hash function and a matched row is
